@@ -6,7 +6,7 @@ Spec ids are creation ranks 1..n; spec times are small integers k, concretised a
 """
 from __future__ import annotations
 
-CONCS = ("int", "float", "dur", "mixed", "near", "bigint")
+CONCS = ("int", "float", "dur", "mixed", "near", "bigint", "hugeint", "subclass")
 
 
 class _Target:
@@ -23,12 +23,30 @@ def make_time(k: int, conc: str, n: int = 0):
         return 1.0e7 + k * 2.0 ** -10
     if conc == "bigint":
         return 10 ** 15 + int(k)
+    if conc == "hugeint":       # int times beyond 2^53: distinct ints that round to the same double
+        return 2 ** 60 + int(k)
+    if conc == "subclass":
+        return k / 4.0
     from pydsol.core.units import Duration
     if conc == "dur":
         return Duration(k / 4.0, "s")
     if conc == "mixed":
         return Duration(15.0 * k, "s") if n % 2 == 0 else Duration(k / 4.0, "min")
     raise ValueError(conc)
+
+
+_UEC = None
+
+
+def _user_event_class():
+    global _UEC
+    if _UEC is None:
+        from pydsol.core.simevent import SimEvent
+
+        class TaggedEvent(SimEvent):
+            """what a user model may do: its own event class"""
+        _UEC = TaggedEvent
+    return _UEC
 
 
 class ELDriver:
@@ -55,7 +73,10 @@ class ELDriver:
 
     def _new_event(self, k, p):
         from pydsol.core.simevent import SimEvent
-        return SimEvent(make_time(k, self.conc, len(self.events)), self.tgt, "m", p)
+        cls = SimEvent
+        if self.conc == "subclass" and len(self.events) % 2 == 1:
+            cls = _user_event_class()      # a user subclass of SimEvent, interleaved with plain events: ids stay unique and increasing
+        return cls(make_time(k, self.conc, len(self.events)), self.tgt, "m", p)
 
     def apply(self, name, *a, record=True):
         el = self.el
